@@ -2198,6 +2198,15 @@ def sstr_method(ctx, name, s, args, kwargs):
         g = z3.Function("utf8len", PStr, z3.IntSort())
         L.sink().add(z3.And(f(t) >= 0, g(t) >= 0))
         return L.OBytes(f(t), g(t))
+    if name == "isascii" and not args and not kwargs:
+        # an uninterpreted predicate of the text; the one fact used: every Unicode normalisation form is the
+        # identity on pure ASCII text (UAX #15), stated for this very term
+        t = pstr_term(s)
+        pred = z3.Function("isascii", PStr, z3.BoolSort())
+        for form in ("NFC", "NFD", "NFKC", "NFKD"):
+            nf = z3.Function("normalize_" + form, PStr, PStr)
+            L.sink().add(z3.Implies(pred(t), nf(t) == t))
+        return pred(t)
     if name == "format":
         raise Undecided("format on structured string")
     if name == "strip":
